@@ -1,4 +1,6 @@
-// Package fm: throw-away prototype of an in-memory MongoDB wire-protocol server.
+// Package fakemongo: in-memory MongoDB wire-protocol server (OP_MSG / OP_QUERY subset that
+// server/mongodb issues) with a command log, dump/diff and a fault plan. Part of the
+// trusted base of every E-svc check (DESIGN.md §2.2).
 package fakemongo
 
 import (
@@ -7,6 +9,7 @@ import (
 	"io"
 	"net"
 	"sort"
+	"strings"
 	"sync"
 	"time"
 
@@ -14,36 +17,126 @@ import (
 	"go.mongodb.org/mongo-driver/bson/primitive"
 )
 
+// Cmd is one command received by the server.
 type Cmd struct {
-	Seq  int
-	Conn int
-	Name string
-	Coll string
-	DB   string
-	Doc  bson.D
-	Seqs map[string][]bson.D
+	Seq    int
+	Conn   int
+	App    string // application name of the connection (= server incarnation)
+	Window string // request window label current when the command arrived
+	Name   string
+	Coll   string
+	DB     string
+	Doc    bson.D
+	Seqs   map[string][]bson.D
+	Failed bool
+	Fault  string
 }
 
+// Key is "name coll".
+func (c *Cmd) Key() string { return c.Name + " " + c.Coll }
+
+// IsData reports commands that are part of orda's own data traffic (not handshake).
+func (c *Cmd) IsData() bool {
+	switch c.Name {
+	case "isMaster", "ismaster", "hello", "saslStart", "saslContinue", "ping", "endSessions", "":
+		return false
+	}
+	return true
+}
+
+// Action is what the fault plan decides for a command.
+type Action struct {
+	Fail       bool          // answer {ok:0} without executing
+	Sever      bool          // close the connection before executing; the incarnation is dead from now on
+	SeverAfter bool          // execute, then close without replying; the incarnation is dead from now on
+	Delay      time.Duration // sleep before executing (outside the server lock)
+	GateBefore chan struct{} // wait for this channel (closed by the harness) before executing
+	GateAfter  chan struct{} // execute, then wait before replying
+	OnReached  func()        // called (outside the lock) when the command reaches its gate / delay
+}
+
+// Server is the stand-in.
 type Server struct {
-	mu    sync.Mutex
-	l     net.Listener
-	colls map[string][]bson.D // "db.coll" -> docs
-	Log   []Cmd
-	nconn int
-	Hook  func(c *Cmd) (fail bool) // called under lock before executing
+	mu     sync.Mutex
+	l      net.Listener
+	colls  map[string][]bson.D // "db.coll" -> docs
+	Log    []Cmd
+	nconn  int
+	plan   func(c *Cmd) Action // called under lock before executing a data command
+	window string
+	dead   map[string]bool // incarnations whose connections are refused
+	conns  map[int]net.Conn
+	open   int // data commands being executed / gated right now
 }
 
+// New starts a server on a loopback port.
 func New() *Server {
 	l, err := net.Listen("tcp", "127.0.0.1:0")
 	if err != nil {
 		panic(err)
 	}
-	s := &Server{l: l, colls: map[string][]bson.D{}}
+	s := &Server{l: l, colls: map[string][]bson.D{}, dead: map[string]bool{}, conns: map[int]net.Conn{}}
 	go s.accept()
 	return s
 }
 
+// Addr returns host:port.
 func (s *Server) Addr() string { return s.l.Addr().String() }
+
+// Close stops listening and closes all connections.
+func (s *Server) Close() {
+	s.l.Close()
+	s.mu.Lock()
+	for _, c := range s.conns {
+		c.Close()
+	}
+	s.mu.Unlock()
+}
+
+// SetPlan installs the fault plan (nil: none). The plan runs under the server lock.
+func (s *Server) SetPlan(p func(c *Cmd) Action) {
+	s.mu.Lock()
+	s.plan = p
+	s.mu.Unlock()
+}
+
+// SetWindow labels the commands that arrive from now on.
+func (s *Server) SetWindow(w string) {
+	s.mu.Lock()
+	s.window = w
+	s.mu.Unlock()
+}
+
+// LogLen returns the number of commands logged so far.
+func (s *Server) LogLen() int {
+	s.mu.Lock()
+	defer s.mu.Unlock()
+	return len(s.Log)
+}
+
+// LogFrom returns a copy of the log from index i.
+func (s *Server) LogFrom(i int) []Cmd {
+	s.mu.Lock()
+	defer s.mu.Unlock()
+	if i > len(s.Log) {
+		i = len(s.Log)
+	}
+	return append([]Cmd{}, s.Log[i:]...)
+}
+
+// OpenCommands returns the number of data commands in progress (executing or gated).
+func (s *Server) OpenCommands() int {
+	s.mu.Lock()
+	defer s.mu.Unlock()
+	return s.open
+}
+
+// KillIncarnation severs all connections of an incarnation and refuses its later traffic.
+func (s *Server) KillIncarnation(app string) {
+	s.mu.Lock()
+	s.dead[app] = true
+	s.mu.Unlock()
+}
 
 func (s *Server) accept() {
 	for {
@@ -54,6 +147,7 @@ func (s *Server) accept() {
 		s.mu.Lock()
 		s.nconn++
 		id := s.nconn
+		s.conns[id] = c
 		s.mu.Unlock()
 		go s.serve(c, id)
 	}
@@ -424,20 +518,14 @@ func (s *Server) exec(c *Cmd) bson.D {
 	return bson.D{{"ok", 0.0}, {"errmsg", "no such command: " + c.Name}, {"code", int32(59)}, {"codeName", "CommandNotFound"}}
 }
 
-func (s *Server) Dump() map[string][]bson.D {
-	s.mu.Lock()
-	defer s.mu.Unlock()
-	out := map[string][]bson.D{}
-	for k, v := range s.colls {
-		for _, d := range v {
-			out[k] = append(out[k], clone(d))
-		}
-	}
-	return out
-}
-
 func (s *Server) serve(c net.Conn, id int) {
-	defer c.Close()
+	defer func() {
+		c.Close()
+		s.mu.Lock()
+		delete(s.conns, id)
+		s.mu.Unlock()
+	}()
+	app := ""
 	for {
 		hdr := make([]byte, 16)
 		if _, err := io.ReadFull(c, hdr); err != nil {
@@ -446,6 +534,9 @@ func (s *Server) serve(c net.Conn, id int) {
 		ln := int(binary.LittleEndian.Uint32(hdr[0:]))
 		reqID := binary.LittleEndian.Uint32(hdr[4:])
 		op := binary.LittleEndian.Uint32(hdr[12:])
+		if ln < 16 || ln > 64<<20 {
+			return
+		}
 		body := make([]byte, ln-16)
 		if _, err := io.ReadFull(c, body); err != nil {
 			return
@@ -487,6 +578,8 @@ func (s *Server) serve(c net.Conn, id int) {
 			}
 			p = p[i+1+8:]
 			bson.Unmarshal(p, &cmd.Doc)
+		} else {
+			return
 		}
 		if len(cmd.Doc) > 0 {
 			cmd.Name = cmd.Doc[0].Key
@@ -495,26 +588,99 @@ func (s *Server) serve(c net.Conn, id int) {
 			}
 		}
 		if db, ok := get(cmd.Doc, "$db"); ok {
-			cmd.DB = db.(string)
+			cmd.DB, _ = db.(string)
 		}
+		if cl, ok := get(cmd.Doc, "client"); ok { // handshake metadata: application name
+			if cd, ok := cl.(bson.D); ok {
+				if a, ok := get(cd, "application"); ok {
+					if ad, ok := a.(bson.D); ok {
+						if n, ok := get(ad, "name"); ok {
+							app, _ = n.(string)
+						}
+					}
+				}
+			}
+		}
+		cmd.App = app
 		// array-style (non document-sequence) payloads
 		for _, k := range []string{"documents", "updates", "deletes"} {
 			if arr, ok := get(cmd.Doc, k); ok {
-				for _, e := range arr.(bson.A) {
-					cmd.Seqs[k] = append(cmd.Seqs[k], e.(bson.D))
+				if a, ok := arr.(bson.A); ok {
+					for _, e := range a {
+						if d, ok := e.(bson.D); ok {
+							cmd.Seqs[k] = append(cmd.Seqs[k], d)
+						}
+					}
 				}
 			}
 		}
 		s.mu.Lock()
+		if s.dead[app] && app != "" {
+			s.mu.Unlock()
+			return
+		}
 		cmd.Seq = len(s.Log)
+		cmd.Window = s.window
+		var act Action
+		if s.plan != nil && cmd.IsData() {
+			act = s.plan(cmd)
+		}
+		switch {
+		case act.Fail:
+			cmd.Failed, cmd.Fault = true, "fail"
+		case act.Sever:
+			cmd.Failed, cmd.Fault = true, "sever"
+		case act.SeverAfter:
+			cmd.Fault = "sever-after"
+		}
 		s.Log = append(s.Log, *cmd)
+		if act.Sever {
+			s.dead[app] = true
+			s.mu.Unlock()
+			return
+		}
+		if cmd.IsData() {
+			s.open++
+		}
+		if act.Delay > 0 || act.GateBefore != nil {
+			s.mu.Unlock()
+			if act.OnReached != nil {
+				act.OnReached()
+			}
+			if act.Delay > 0 {
+				time.Sleep(act.Delay)
+			}
+			if act.GateBefore != nil {
+				<-act.GateBefore
+			}
+			s.mu.Lock()
+		}
 		var reply bson.D
-		if s.Hook != nil && s.Hook(cmd) {
-			reply = bson.D{{"ok", 0.0}, {"errmsg", "injected failure"}, {"code", int32(11600)}, {"codeName", "InterruptedAtShutdown"}}
+		if act.Fail {
+			reply = bson.D{{Key: "ok", Value: 0.0}, {Key: "errmsg", Value: "injected failure"}, {Key: "code", Value: int32(11600)}, {Key: "codeName", Value: "InterruptedAtShutdown"}}
 		} else {
 			reply = s.exec(cmd)
 		}
+		if act.SeverAfter {
+			s.dead[app] = true
+			if cmd.IsData() {
+				s.open--
+			}
+			s.mu.Unlock()
+			return
+		}
 		s.mu.Unlock()
+		if act.GateAfter != nil {
+			if act.OnReached != nil {
+				act.OnReached()
+			}
+			<-act.GateAfter
+		}
+		if cmd.IsData() {
+			s.mu.Lock()
+			s.open--
+			s.mu.Unlock()
+		}
 		rb, err := bson.Marshal(reply)
 		if err != nil {
 			panic(err)
@@ -537,4 +703,134 @@ func (s *Server) serve(c net.Conn, id int) {
 			return
 		}
 	}
+}
+
+// ------------------------------------------------------------------ dump / diff
+
+// Dump returns a deep copy of all collections.
+func (s *Server) Dump() map[string][]bson.D {
+	s.mu.Lock()
+	defer s.mu.Unlock()
+	out := map[string][]bson.D{}
+	for k, v := range s.colls {
+		out[k] = []bson.D{}
+		for _, d := range v {
+			out[k] = append(out[k], clone(d))
+		}
+	}
+	return out
+}
+
+// Coll returns a deep copy of one collection ("db.coll").
+func (s *Server) Coll(ns string) []bson.D {
+	s.mu.Lock()
+	defer s.mu.Unlock()
+	var out []bson.D
+	for _, d := range s.colls[ns] {
+		out = append(out, clone(d))
+	}
+	return out
+}
+
+// DeleteWhere removes documents of a collection for which pred holds (harness-side
+// manipulation of the store, e.g. to move the latest snapshot back).
+func (s *Server) DeleteWhere(ns string, pred func(d bson.D) bool) int {
+	s.mu.Lock()
+	defer s.mu.Unlock()
+	var keep []bson.D
+	n := 0
+	for _, d := range s.colls[ns] {
+		if pred(d) {
+			n++
+			continue
+		}
+		keep = append(keep, d)
+	}
+	s.colls[ns] = keep
+	return n
+}
+
+// Flat returns the store as "ns/_id" -> canonical extended JSON of the document, with
+// volatile timestamp fields removed when stripTimes is set.
+func (s *Server) Flat(stripTimes bool) map[string]string {
+	out := map[string]string{}
+	for ns, docs := range s.Dump() {
+		for _, d := range docs {
+			id, _ := get(d, "_id")
+			dd := d
+			if stripTimes {
+				dd = strip(d)
+			}
+			b, err := bson.MarshalExtJSON(dd, true, false)
+			if err != nil {
+				b = []byte(fmt.Sprint(dd))
+			}
+			out[fmt.Sprintf("%s/%v", ns, id)] = string(b)
+		}
+		if len(docs) == 0 {
+			out[ns+"/"] = "(empty collection)"
+		}
+	}
+	return out
+}
+
+var volatile = map[string]bool{"createdAt": true, "updatedAt": true, "at": true}
+
+func strip(d bson.D) bson.D {
+	var out bson.D
+	for _, e := range d {
+		if volatile[e.Key] {
+			continue
+		}
+		if sub, ok := e.Value.(bson.D); ok {
+			out = append(out, bson.E{Key: e.Key, Value: strip(sub)})
+			continue
+		}
+		out = append(out, e)
+	}
+	return out
+}
+
+// Diff lists the keys of a Flat() map that were created, changed or deleted.
+func Diff(before, after map[string]string) []string {
+	var out []string
+	for k, v := range after {
+		if b, ok := before[k]; !ok {
+			out = append(out, "created "+k)
+		} else if b != v {
+			out = append(out, "changed "+k)
+		}
+	}
+	for k := range before {
+		if _, ok := after[k]; !ok {
+			out = append(out, "deleted "+k)
+		}
+	}
+	sort.Strings(out)
+	return out
+}
+
+// Get reads a top-level field of a document.
+func Get(d bson.D, k string) (interface{}, bool) { return get(d, k) }
+
+// GetPath reads a dotted path.
+func GetPath(d bson.D, path string) (interface{}, bool) {
+	var cur interface{} = d
+	for _, p := range strings.Split(path, ".") {
+		dd, ok := cur.(bson.D)
+		if !ok {
+			return nil, false
+		}
+		cur, ok = get(dd, p)
+		if !ok {
+			return nil, false
+		}
+	}
+	return cur, true
+}
+
+// Num converts a BSON numeric to int64.
+func Num(v interface{}) int64 {
+	f, _ := num(v)
+	return int64(f)
 }
